@@ -202,6 +202,14 @@ fn new_kms_signer(n: usize, k256: bool) -> Signer {
 
 fn new_stored_signer(n: usize, clock: &Clock) -> Option<Signer> {
   let mut p = Party::new("signer", false, n);
+  if ctx::choose(3) == 0 {
+    // the IotaDocument twin of the storage-backed API, under a DID of its own (not the network placeholder)
+    let did = format!("did:iota:{}:0x{:064x}", ["smr", "rms"][ctx::choose(2)], 0x5151_0000u64 + n as u64);
+    p.doc = AnyDoc::Iota(identity_iota_core::IotaDocument::new_with_id(identity_iota_core::IotaDID::parse(&did).ok()?));
+    p.did = did;
+    p.iota = true;
+    ctx::stat("probe.iota_document_signer");
+  }
   clock.enter(0);
   p.gen_method("key", None).ok()?;
   if ctx::choose(2) == 0 {
@@ -209,7 +217,9 @@ fn new_stored_signer(n: usize, clock: &Clock) -> Option<Signer> {
       AnyDoc::Core(d) => {
         let _ = d.attach_method_relationship("key", identity_verification::MethodRelationship::Authentication);
       }
-      AnyDoc::Iota(_) => {}
+      AnyDoc::Iota(d) => {
+        let _ = d.attach_method_relationship(format!("{}#key", p.did).as_str(), identity_verification::MethodRelationship::Authentication);
+      }
     }
   }
   if ctx::chance(1, 3) {
@@ -1328,9 +1338,18 @@ fn separation(signers: &[Signer], n: &Notice) {
   let s = &signers[n.parts[0].signer];
   let SignerKind::Stored(p) = &s.kind else { return };
   let doc = p.doc.core();
+  // verification goes through the document type the signer uses (IotaDocument::verify_jws or CoreDocument::verify_jws)
+  let verify = |opts: &JwsVerificationOptions| -> Result<(), String> {
+    match &p.doc {
+      AnyDoc::Core(d) => d.verify_jws(&n.wire, n.detached.as_deref(), &EdDSAJwsVerifier::default(), opts).map(|_| ()).map_err(|e| e.to_string()),
+      AnyDoc::Iota(d) => d
+        .verify_jws(&identity_credential::credential::Jws::new(n.wire.clone()), n.detached.as_deref(), &EdDSAJwsVerifier::default(), opts)
+        .map(|_| ())
+        .map_err(|e| e.to_string()),
+    }
+  };
+  let _ = doc;
   let kid_is_method = n.parts[0].protected.get("kid").and_then(|k| k.as_str()) == Some(s.kid().as_str());
-  let detached: Option<&[u8]> = n.detached.as_deref();
-  let verifier = EdDSAJwsVerifier::default();
   let base = || {
     let mut o = JwsVerificationOptions::default();
     if let Some(nn) = &n.nonce {
@@ -1342,7 +1361,7 @@ fn separation(signers: &[Signer], n: &Notice) {
     o
   };
   // positive: verifies against the document and key it was produced for
-  if let Err(e) = doc.verify_jws(&n.wire, detached, &verifier, &base()) {
+  if let Err(e) = verify(&base()) {
     ctx::violation(
       "C08",
       "C08.produced_token_decodes_and_verifies",
@@ -1353,20 +1372,20 @@ fn separation(signers: &[Signer], n: &Notice) {
   }
   // another method's key
   let other = identity_did::DIDUrl::parse(format!("{}#second", s.did)).unwrap();
-  if doc.verify_jws(&n.wire, detached, &verifier, &base().method_id(other)).is_ok() {
+  if verify(&base().method_id(other)).is_ok() {
     ctx::violation("C08", "C08.separation", "verifies-under-other-method", "token made for #key verifies under the key of #second");
   } else {
     ctx::stat("probe.separation.other_key_rejected");
   }
   // another nonce
-  if doc.verify_jws(&n.wire, detached, &verifier, &base().nonce("someothernonce".to_owned())).is_ok() {
+  if verify(&base().nonce("someothernonce".to_owned())).is_ok() {
     ctx::violation("C08", "C08.separation", "verifies-under-other-nonce", "token verifies under a different nonce");
   } else {
     ctx::stat("probe.separation.other_nonce_rejected");
   }
   // a scope that excludes the method (#key is general purpose, possibly referenced from authentication only)
   let scope = MethodScope::VerificationRelationship(identity_verification::MethodRelationship::KeyAgreement);
-  if doc.verify_jws(&n.wire, detached, &verifier, &base().method_scope(scope)).is_ok() {
+  if verify(&base().method_scope(scope)).is_ok() {
     ctx::violation("C08", "C08.separation", "verifies-under-excluding-scope", "token verifies under a scope that does not contain its method");
   } else {
     ctx::stat("probe.separation.scope_rejected");
